@@ -82,6 +82,31 @@ def declare_collection(md, r, backend, name):
     return "Fork" + name
 
 
+P_REPLACE = 0.08  # a query re-declares ONE built-in collection name with the container / element type of another one
+
+
+def choose_replacement(md, r, backend):
+    """With probability P_REPLACE: {name: (ctype, etype)} for one built-in name that this query declares anew, through
+    metadata, as a container of ANOTHER (existing) type - every e.<name>(bank) of the query must then be fetched as that
+    type. Half of the ATLAS declarations come without link_libraries (the key is optional)."""
+    if r.random() >= P_REPLACE:
+        return {}
+    names = sorted(COLLECTIONS[backend])
+    name = r.choice(names)
+    others = sorted(n for n in names if COLLECTIONS[backend][n]["ctype"] != COLLECTIONS[backend][name]["ctype"])
+    if not others:
+        return {}
+    o = COLLECTIONS[backend][r.choice(others)]
+    d = {"metadata_type": MD_TYPE[backend], "name": name, "include_files": ["redeclared/" + name + ".h"],
+         "container_type": o["ctype"], "element_type": o["etype"], "contains_collection": True}
+    if backend != "atlas":
+        d["element_pointer"] = False
+    elif r.random() < 0.5:
+        d["link_libraries"] = ["redeclared" + name]
+    md[("coll", name)] = d
+    return {name: (o["ctype"], o["etype"])}
+
+
 import os as _os
 
 from ..core.util import weighted as weighted_choice  # noqa (used by qgen2)
@@ -137,6 +162,9 @@ class QGen:
         self.uncond = True  # are we at a place that is evaluated on every event?
         self.last = None
         self.self_join = None
+        self.replaced = choose_replacement(self.md, rng, backend)
+        if self.replaced:
+            self.shape.append("redeclared_builtin")
 
     # ---- helpers
     def var(self, p):
@@ -165,6 +193,8 @@ class QGen:
             # a self-join: the very same collection and bank again, inside the loop over itself (object pairs)
             name, bank = self.self_join
             c = COLLECTIONS[self.b][name]
+            if name in self.replaced:
+                c = dict(c, ctype=self.replaced[name][0], etype=self.replaced[name][1])
             self.self_join = None
             self.shape.append("self_join")
             self.occ.append({"coll": name, "bank": bank, "type": c["ctype"], "uncond": self.uncond})
@@ -178,7 +208,9 @@ class QGen:
             bank = odd_bank(self.r, name, bank, self.occ)
             self.shape.append("odd_bank")
         call = name
-        if self.r.random() < P_DECL:
+        if name in self.replaced:
+            c = dict(c, ctype=self.replaced[name][0], etype=self.replaced[name][1])
+        elif self.r.random() < P_DECL:
             call = declare_collection(self.md, self.r, self.b, name)
             self.shape.append("declared_coll")
         self.occ.append({"coll": call, "bank": bank, "type": c["ctype"], "uncond": self.uncond})
